@@ -1676,13 +1676,6 @@ func c04Gen(r *gen.R, tier string) c04Input {
 				}
 			}
 		case 1: // new account
-			// Not in a scope made by NewScopedKeyManager: no last-account
-			// row is written for it, so the first NewAccount there gets
-			// number 0 and overwrites the scope's default account while
-			// the manager's cached copy of account 0 goes stale (memory
-			// and disk then disagree - a matter of C03/C08, reported in
-			// DESIGN; the disk-only model cannot follow the stale cache).
-			s = defaultScopes[r.Intn(len(defaultScopes))]
 			id, l := g.name()
 			emit(c04Op{K: "newacct", Scope: s, Name: id, NameLen: l})
 			if g.unlocked && !g.wo {
@@ -1722,8 +1715,7 @@ func c04Gen(r *gen.R, tier string) c04Input {
 				l = 46 + r.Range(10, 80)
 			}
 			emit(c04Op{K: "impscript", Scope: s, ID: g.nextID, SKind: kind, Secret: secret, Len: l})
-		case 5: // import xpub account (default scopes only, see case 1)
-			s = defaultScopes[r.Intn(len(defaultScopes))]
+		case 5: // import xpub account
 			g.nextID++
 			id, l := g.name()
 			emit(c04Op{K: "impxpub", Scope: s, ID: g.nextID, Name: id, NameLen: l, Schema: r.Chance(1, 2)})
@@ -1770,8 +1762,7 @@ func c04Gen(r *gen.R, tier string) c04Input {
 				if !known {
 					g.scopes = append(g.scopes, ns)
 					g.accts[ns] = []uint32{0}
-					// no last-account row is written for a new scope
-					g.last[ns] = 4294967295
+					g.last[ns] = 0
 				}
 			}
 		case 13:
